@@ -83,6 +83,7 @@ def parse_out(path):
 
 FRAME_RE = re.compile(r"^\s*#(\d+) 0x[0-9a-f]+ in (.+?) (/[^ ]+?):(\d+)", re.M)
 FRAME2_RE = re.compile(r"^\s*#(\d+) 0x[0-9a-f]+ in (\S+)", re.M)
+TSAN_FRAME_RE = re.compile(r"^\s*#(\d+) (.+?) (/[^ :]+):(\d+)", re.M)
 
 def _fname(sym):
     sym = re.sub(r"\(.*$", "", sym).strip()
@@ -92,7 +93,7 @@ def _fname(sym):
 def site_of(stderr_text):
     """top stack frame inside the repository, as a function name (no line numbers)"""
     # only the first report's first stack
-    for m in FRAME_RE.finditer(stderr_text):
+    for m in list(FRAME_RE.finditer(stderr_text)) or list(TSAN_FRAME_RE.finditer(stderr_text)):
         path = m.group(3)
         if "/harness/" in path or "/usr/" in path or "libsanitizer" in path:
             continue
